@@ -109,6 +109,62 @@ def overlong_case_st(draw):
     return (stuffing, abort, stream, cuts)
 
 
+# --- special frames: same length in a row, last octet 7D/7E, checksummed frames without room for control/HCS, 7D 7D pairs near the limit
+
+
+def _addr_only_frame(n_even: int) -> bytes:
+    """Length and FCS are right, but the address field fills the frame: no control field, no HCS (discarded as too short)."""
+    from vlib.ref_fcs import fcs16_octets
+
+    total = 2 + n_even + 1 + 2
+    body = bytes([0xA0 | (total >> 8), total & 0xFF]) + bytes([0x02]) * n_even + bytes([0x03])
+    return body + fcs16_octets(body)
+
+
+@st.composite
+def special_case_st(draw):
+    import random
+
+    stuffing, abort = draw(G.config_st)
+    kind = draw(st.sampled_from(["same-length", "same-length", "addr-only", "escape-pairs-near-limit"]))
+    rnd = random.Random(draw(st.integers(0, 2**31)))
+    if kind == "same-length":
+        n = draw(st.integers(2, 5))
+        L = draw(st.sampled_from([3, 8, 20]))
+        frames = []
+        for i in range(n):
+            spec = {"ftype": 0xA, "seg": 0, "dest": b"\x03", "src": b"\x21", "control": 0x13, "info": rnd.randbytes(L)}
+            if i and rnd.random() < 0.6:
+                spec = G.force_last_octet(spec, rnd.choice([ESC, FLAG])) or spec  # same length, but the last octet is 7D or 7E
+            frames.append(G.frame_from_spec(spec))
+        stream = b"".join(bytes([FLAG]) + G.wire(f, stuffing) for f in frames) + bytes([FLAG])
+    elif kind == "addr-only":
+        pieces = [bytes([FLAG]) + G.wire(_SHORT, stuffing), bytes([FLAG]) + G.wire(_addr_only_frame(draw(st.sampled_from([1, 3, 6, 12]))), stuffing), bytes([FLAG]) + G.wire(_SHORT2, stuffing), bytes([FLAG])]
+        stream = b"".join(pieces)
+    else:
+        # raw content un-stuffing to 2044..2051 octets with several 7D 7D pairs; cuts exactly between the two escape octets
+        target = draw(st.sampled_from([2044, 2046, 2047, 2048, 2049, 2051]))
+        raw = bytearray(b"\xa7\xff\x01\x01\x10\x38\x83")
+        unst = len(raw)
+        pair_pos = []
+        while unst < target:
+            if rnd.random() < 0.02 and unst + 1 <= target:
+                pair_pos.append(len(raw) + 1)
+                raw += bytes([ESC, ESC])  # un-stuffs to one octet (5D)
+                unst += 1
+            else:
+                raw.append(rnd.choice([0x01, 0x11, 0x5E, 0xA0]))
+                unst += 1
+        if not pair_pos:
+            pair_pos.append(len(raw) + 1)
+            raw += bytes([ESC, ESC])
+        stream = bytes([FLAG]) + bytes(raw) + bytes([FLAG]) + G.wire(_SHORT, stuffing) + bytes([FLAG])
+        cut = 1 + draw(st.sampled_from(pair_pos))
+        return (stuffing, abort, stream, ("at", (cut,)))
+    cuts = draw(st.one_of(G.cuts_st(), st.tuples(st.just("fixed"), st.sampled_from([len(stream) // 2 + 1, 64, 1000]), st.just(0))))
+    return (stuffing, abort, stream, cuts)
+
+
 # --- structured exhaustive token sequences ----------------------------------------------------------------
 
 _SHORT = G.build_frame(0xA, 0, b"\x03", b"\x21", 0x13, b"\x7d\x5e\x7e\x01")  # 7D, 5E, 7E inside the information field
@@ -171,7 +227,9 @@ def build() -> Check:
         rule=(
             "streams: the C01 stream generator (good/defective/noise tokens) and flag/escape-dense noise, each compared single-call vs "
             "bytewise vs a drawn splitting, per configuration; non-trivial = the stream yields >=1 frame or leaves the reader mid-frame "
-            "AND the compared splitting has a cut adjacent to a 7E/7D. overlong: flag + 2030..4200 flag-free octets (random, 7D-dense, a header announcing "
+            "AND the compared splitting has a cut adjacent to a 7E/7D. special-frames: 2-5 frames of identical length in a row (some forced to end in 7D or 7E); correctly check-summed frames "
+            "whose address field leaves no room for control/HCS; raw runs un-stuffing to 2044..2051 octets with 7D 7D pairs and a cut exactly "
+            "between the two escape octets. overlong: flag + 2030..4200 flag-free octets (random, 7D-dense, a header announcing "
             "2047 octets, 01 filler) + 1..3 good frames, with chunk sizes around 2047/2048 and cuts near the limit. tokens: ALL sequences of <=4 (quick) / <=6 (thorough) tokens over "
             "{flag, escape, valid frame with 7D/5E/7E in its information field, header-only frame, frame truncated after the HCS, frame "
             "cut mid-header, odd octet, even octet, 5E, stuffed valid frame} x 4 configurations x {bytewise, every single cut, token "
@@ -182,6 +240,7 @@ def build() -> Check:
         clauses=[
             HypClause("streams", c01.case_st, oracle_stream, quick=12000, thorough=250000),
             HypClause("dense", dense_case_st, oracle_stream, quick=12000, thorough=250000),
+            HypClause("special-frames", special_case_st, oracle_stream, quick=2500, thorough=50000, doc="same-length frames in a row incl. last octet 7D/7E; frames without room for control/HCS; 7D 7D pairs near 2047 with a cut between them"),
             HypClause("overlong", overlong_case_st, oracle_stream, quick=1500, thorough=30000, doc="frames around / beyond the 2047-octet maximum followed by good frames"),
             EnumClause("tokens", size=lambda tier: _seq_count(4 if tier == "quick" else 6), case_at=seq_at, oracle=oracle_tokens, doc="exhaustive token sequences x all single cuts"),
         ],
